@@ -205,3 +205,62 @@ class WriteAcrossLink:
 
     def ensures_everything_written(data, local_cur_byte, local_length_bytes):
         return local_cur_byte == seq_len(data) and local_length_bytes == 0
+
+
+# ---- address of a per-core (vcpu) field --------------------------------------------------------------
+from pyvc.values import TTuple, ObjV as _ObjV   # noqa: E402
+
+MCS = TRec("MachineController", structs=TRec("OpaqueStructs"))
+
+
+def _structs_getitem(E, obj, args, kwargs, st, node):
+    # self.structs[b"vcpu"]: the struct definition (size = ghost input g_size)
+    return [(st, _ObjV("OpaqueStruct", {"size": st.env["g_size"]}), None)]
+
+
+def _struct_getitem(E, obj, args, kwargs, st, node):
+    return [(st, _ObjV("StructField", {"offset": st.env["g_offset"], "pack_chars": st.env["g_pack"], "length": 1}), None)]
+
+
+def _six_b(E, args, kwargs, st, node):
+    return [(st, args[0])]
+
+
+def _read_struct_field(E, obj, args, kwargs, st, node):
+    s = st.copy()
+    s.trace = ListV(s.trace.items + (("read_struct_field",) + tuple(args),))
+    return [(s, st.env["g_base"], None)]
+
+
+@contract("rig/machine_control/machine_controller.py::MachineController._get_vcpu_field_and_address")
+class VcpuFieldAddress:
+    properties = ("C07",)
+    params = dict(self=MCS, field_name=TInt(), x=COORD, y=COORD, p=TInt(0, 31),
+                  g_size=TInt(1, 4096), g_offset=TInt(0, 4095), g_pack=BYTES, g_base=TInt(0, 2 ** 32 - 1))
+    externals = {"OpaqueStructs.__getitem__": _structs_getitem, "OpaqueStruct.__getitem__": _struct_getitem,
+                 "six.b": _six_b, "b": _six_b, "MachineController.read_struct_field": _read_struct_field}
+    assumptions = ["the struct definitions are opaque: structs[b'vcpu'].size and the field's offset are ghost inputs",
+                   "read_struct_field('sv','vcpu_base',x,y) returns the chip's vcpu base (ghost input), recorded in the trace"]
+
+    def native(field_name, x, y, p, g_size, g_offset, g_pack, g_base):
+        from rig.machine_control.machine_controller import MachineController
+        import types
+        mc = MachineController.__new__(MachineController)
+
+        class S(dict):
+            size = g_size
+        st = S()
+        st[b"f"] = types.SimpleNamespace(offset=g_offset, pack_chars=bytes(g_pack), length=1)
+        mc.structs = {b"vcpu": st}
+        calls = []
+
+        def rsf(*a):
+            calls.append(("read_struct_field",) + a)
+            return g_base
+        mc.read_struct_field = rsf
+        r = mc._get_vcpu_field_and_address("f", x, y, p)
+        return {"__native__": True, "result": r, "_trace": calls}
+
+    def ensures_address_is_base_of_this_chip_plus_core_block_plus_offset(x, y, p, g_size, g_offset, g_base, result, _trace):
+        return (result[1] == g_base + g_size * p + g_offset
+                and len(_trace) == 1 and _trace[0][3] == x and _trace[0][4] == y)
